@@ -355,6 +355,7 @@ def extract_structs(src_raw, relpath):
                     fattrs.update(parse_deb822_attr(mm.group(1), where))
                 elif re.match(r"deb822\b", a):
                     raise TranslateError(f"{where}: deb822 attribute without argument list")
+            is_pub = re.match(r"^pub\s+(?!\()", ftxt) is not None      # plain `pub`: reachable from the harness
             ftxt = re.sub(r"^pub(\s*\([^)]*\))?\s+", "", ftxt)
             mm = re.match(r"(r#)?(" + ID + r")\s*:\s*(.*)$", ftxt, re.S)
             if not mm:
@@ -373,7 +374,7 @@ def extract_structs(src_raw, relpath):
             else:
                 de = dde or "DUnrecognised"
                 if dde is None: notes.append(f"type {inner} has no entry in the type table")
-            fields.append({"ident": ident, "key": fattrs.get("field", ident), "optional": opt, "type": re.sub(r"\s+", " ", ty),
+            fields.append({"ident": ident, "key": fattrs.get("field", ident), "optional": opt, "pub": is_pub, "type": re.sub(r"\s+", " ", ty),
                            "inner": re.sub(r"\s+", " ", inner), "ser": ser, "de": de,
                            "ser_fn": fattrs.get("serialize_with"), "de_fn": fattrs.get("deserialize_with"), "notes": notes})
         out.append({"name": name, "file": relpath, "from": has_from, "to": has_to, "derives": derives,
@@ -611,12 +612,17 @@ def emit_coq(structs, flags, notes):
 def rust_lit(s):
     return '"' + "".join(c if (32 <= ord(c) < 127 and c not in '"\\') else "\\u{%x}" % ord(c) for c in s) + '"'
 
+def clearable(s):
+    """list-typed fields of a struct whose value the harness can replace by an empty list"""
+    local = s.get("rust_path") is None          # test structs are copied with every field made pub
+    return [f for f in s["fields"] if (f["pub"] or local) and re.sub(r"\s+", "", f["inner"]) == "Vec<String>"]
+
 def emit_rust(structs):
     L = ["// GENERATED by translate/structs.py from the Rust sources of the repository — do not edit.",
          "// Per-struct glue of the `derive` stream: one dispatch arm per deriving struct of the workspace;",
          "// the test structs of src/convert.rs (local to test functions) are copied here verbatim and",
          "// derived with the real macro.",
-         "#![allow(dead_code, unused_imports, non_camel_case_types, clippy::all)]",
+         "#![allow(dead_code, unused_imports, unused_variables, non_camel_case_types, non_snake_case, clippy::all)]",
          "use crate::s_derive::{run_full, run_to_only, Spec};",
          "use deb822_lossless::{FromDeb822, FromDeb822Paragraph, ToDeb822, ToDeb822Paragraph};", ""]
     arms = []
@@ -657,7 +663,21 @@ def emit_rust(structs):
             ty = s["rust_path"]
         if s["from"] and s["to"]:
             eq = f"Some(|a: &{ty}, b: &{ty}| a == b)" if s["partial_eq"] else "None"
-            arms.append(f"        {rust_lit(s['id'])} => run_full::<{ty}>(fs, &{spec}, {eq}),")
+            # Vec<String> fields the harness can reach: a value with an EMPTY list cannot be obtained through
+            # from_paragraph for every codec (split('\\n') never yields one), so the stream can empty them directly
+            cl = clearable(s)
+            fname = "clear_" + coq_ident(s["id"])
+            L.append(f"fn {fname}(v: &mut {ty}, key: &str) -> bool {{")
+            L.append("    match key {")
+            for f in cl:
+                if f["optional"]:
+                    L.append(f"        {rust_lit(f['key'])} => {{ v.{f['ident']} = Some(vec![]); true }}")
+                else:
+                    L.append(f"        {rust_lit(f['key'])} => {{ v.{f['ident']}.clear(); true }}")
+            L.append("        _ => false,")
+            L.append("    }")
+            L.append("}")
+            arms.append(f"        {rust_lit(s['id'])} => run_full::<{ty}>(fs, &{spec}, {eq}, {fname}),")
         elif s["to"]:
             arms.append(f"        {rust_lit(s['id'])} => run_to_only(fs, &{spec}, {ty.rsplit('::', 1)[0]}::build),")
         else:
@@ -680,7 +700,8 @@ def emit_rust(structs):
 def emit_json(structs, flags):
     return json.dumps({"ext": EXT_ID, "unordered": sorted(UNORDERED), "flags": flags, "structs": [
         {"id": s["id"], "name": s["name"], "file": s["file"], "from": s["from"], "to": s["to"], "partial_eq": s["partial_eq"],
-         "fields": [{k: f[k] for k in ("ident", "key", "optional", "type", "inner", "ser", "de", "ser_fn", "de_fn", "notes")} for f in s["fields"]]}
+         "clearable": [f["key"] for f in clearable(s)] if (s["from"] and s["to"]) else [],
+         "fields": [{k: f[k] for k in ("ident", "key", "optional", "pub", "type", "inner", "ser", "de", "ser_fn", "de_fn", "notes")} for f in s["fields"]]}
         for s in structs]}, indent=1, ensure_ascii=False) + "\n"
 
 def write_if_changed(path, txt):
